@@ -255,6 +255,9 @@ func (v *Vue) evaluateNodeAsElement(ctx VueContext, node *html.Node, depth int) 
 				ctx.stack.Set(boundName, val)
 				continue
 			}
+			if isFuncCallError(err) {
+				return nil, fmt.Errorf("in binding %s=\"%s\": %w", attr.Key, attr.Val, err)
+			}
 
 			// Fall back to variable resolution if expression evaluation fails
 			valResolved, ok := ctx.stack.Resolve(expr)
